@@ -41,6 +41,9 @@ type spec struct {
 	// K > 0: only this crash point (replay form); 0: every crash point
 	K    int
 	Torn bool
+	// BigSector: the writer opens the file with psow=0, which makes the
+	// journal's sector size 4096 (larger than small pages)
+	BigSector bool `json:",omitempty"`
 }
 
 var stmtPool = []string{
@@ -75,6 +78,7 @@ func TestC09Crash(t *testing.T) {
 				PageSize:    rapid.SampledFrom([]int{512, 512, 1024, 4096}).Draw(t, "ps"),
 				JournalMode: rapid.SampledFrom([]string{"DELETE", "TRUNCATE", "PERSIST"}).Draw(t, "jm"),
 				Rows:        rapid.SampledFrom([]int{30, 80, 150}).Draw(t, "rows"),
+				BigSector:   rapid.IntRange(0, 2).Draw(t, "bigsector") == 0,
 			}
 			n := rapid.IntRange(1, 4).Draw(t, "nstmts")
 			for i := 0; i < n; i++ {
@@ -114,10 +118,18 @@ func runWriter(r *vt.Run, t vt.TB, dir, db string, s spec, k int, torn bool, log
 	if _, err := os.Stat(locks.ToolPath("crashwriter")); err == nil {
 		stmtFile := filepath.Join(dir, "writer.sql")
 		os.WriteFile(stmtFile, []byte(strings.Join(s.Stmts, "\n")+"\n"), 0o644)
-		cmd = exec.Command(locks.ToolPath("crashwriter"), db, s.JournalMode, "3", stmtFile)
+		target := db
+		if s.BigSector {
+			target = "file:" + db + "?psow=0"
+		}
+		cmd = exec.Command(locks.ToolPath("crashwriter"), target, s.JournalMode, "3", stmtFile)
 	} else {
 		specFile := filepath.Join(dir, "writer.json")
-		b, _ := json.Marshal(map[string]interface{}{"path": db, "journal_mode": s.JournalMode, "cache_size": 3, "stmts": s.Stmts})
+		target := db
+		if s.BigSector {
+			target = "file:" + db + "?psow=0"
+		}
+		b, _ := json.Marshal(map[string]interface{}{"path": target, "journal_mode": s.JournalMode, "cache_size": 3, "stmts": s.Stmts})
 		os.WriteFile(specFile, b, 0o644)
 		py := os.Getenv("VERIF_PYTHON")
 		if py == "" {
@@ -322,6 +334,7 @@ func run(r *vt.Run, t vt.TB, s spec) {
 			cp := s
 			cp.K, cp.Torn = k, torn
 			r.CaseKey(vt.Hash(cp), nontrivial, "crash:"+s.JournalMode+":"+opName+map[bool]string{true: ":torn", false: ""}[torn], func() interface{} { return cp })
+			r.Count(fmt.Sprintf("sector:%v", map[bool]int{true: 4096, false: 512}[s.BigSector]), 1)
 			r.Count("journal-left:"+jstate, 1)
 
 			// two copies: one for sqlittle, one for SQLite's own recovery
